@@ -130,7 +130,7 @@ func (e *Engine) VerifyFunc(name string, opts UnitOpts) (u *Unit, err error) {
 	u.coverCheck(st, "requires")
 	f.run(st)
 	for _, a := range ct.Asserts {
-		if !f.usedAnchors[a.Anchor] {
+		if !f.usedAnchors[a.Anchor] && !strings.HasSuffix(a.Anchor, "#*") {
 			return nil, fmt.Errorf("%s: anchor %q of an assert@/assume@ clause was not found", name, a.Anchor)
 		}
 	}
